@@ -261,9 +261,13 @@ impl Verify for Lpc {
 
 impl Verify for QuantizedParameters {
     fn verify(&self) -> Result<(), VerifyError> {
-        verify_range!("order", self.order(), ..=MAX_LPC_ORDER)?;
+        verify_range!("order", self.order(), 1..=MAX_LPC_ORDER)?;
         verify_range!("shift", self.shift(), MIN_LPC_SHIFT..=MAX_LPC_SHIFT)?;
-        verify_range!("precision", self.precision(), ..=MAX_LPC_PRECISION)?;
+        verify_range!("precision", self.precision(), 1..=MAX_LPC_PRECISION)?;
+        let coef_limit = 1i32 << (self.precision() - 1);
+        for (i, coef) in self.coefs().iter().enumerate() {
+            verify_range!("coefs[{i}]", i32::from(*coef), (-coef_limit)..coef_limit)?;
+        }
         Ok(())
     }
 }
